@@ -5,38 +5,69 @@
 (* the cursors partition, pause/resume and restart.                        *)
 EXTENDS Cursors, TLC
 
-CONSTANTS MaxSets, MaxOps, MaxFaults, MaxFails, UseKeys, UseClients
-VARIABLES last, nSets, nOps, nFaults, nFails
-mcvars == <<vars, last, nSets, nOps, nFaults, nFails>>
+CONSTANTS MaxSets, MaxOps, MaxFaults, MaxFails, UseKeys, UseClients,
+          MaxHand     \* leader changes of the cursors partition between two servers (0: one server)
+VARIABLES last, nSets, nOps, nFaults, nFails, nHand
+mcvars == <<vars, last, nSets, nOps, nFaults, nFails, nHand>>
 
 Step(a) == nOps < MaxOps /\ nOps' = nOps + 1 /\ last' = a
 
-MCInit == Init /\ last = [a |-> "Open"] /\ nSets = 0 /\ nOps = 0 /\ nFaults = 0 /\ nFails = 0
+MCInit == Init /\ last = [a |-> "Open"] /\ nSets = 0 /\ nOps = 0 /\ nFaults = 0 /\ nFails = 0 /\ nHand = 0
 
 MCSet(k) == /\ nSets < MaxSets /\ DoSet(k, nSets + 1) /\ nSets' = nSets + 1
-            /\ Step([a |-> "Set", k |-> k, v |-> nSets + 1]) /\ UNCHANGED <<nFaults, nFails>>
+            /\ Step([a |-> "Set", k |-> k, v |-> nSets + 1]) /\ UNCHANGED <<nFaults, nFails, nHand>>
 MCSetFail(k) == /\ nSets < MaxSets /\ nFails < MaxFails /\ DoSetFail(k, nSets + 1)
                 /\ nSets' = nSets + 1 /\ nFails' = nFails + 1
-                /\ Step([a |-> "SetFail", k |-> k, v |-> nSets + 1]) /\ UNCHANGED nFaults
-MCFetch(k) == DoFetch(k) /\ Step([a |-> "Fetch", k |-> k]) /\ UNCHANGED <<nSets, nFaults, nFails>>
-MCFetchBegin(c, k) == DoFetchBegin(c, k) /\ Step([a |-> "FetchBegin", c |-> c, k |-> k]) /\ UNCHANGED <<nSets, nFaults, nFails>>
-MCFetchEnd(c) == DoFetchEnd(c) /\ Step([a |-> "FetchEnd", c |-> c]) /\ UNCHANGED <<nSets, nFaults, nFails>>
-Fault(a) == nFaults < MaxFaults /\ nFaults' = nFaults + 1 /\ Step(a) /\ UNCHANGED <<nSets, nFails>>
+                /\ Step([a |-> "SetFail", k |-> k, v |-> nSets + 1]) /\ UNCHANGED <<nFaults, nHand>>
+MCFetch(k) == DoFetch(k) /\ Step([a |-> "Fetch", k |-> k]) /\ UNCHANGED <<nSets, nFaults, nFails, nHand>>
+MCFetchBegin(c, k) == DoFetchBegin(c, k) /\ Step([a |-> "FetchBegin", c |-> c, k |-> k]) /\ UNCHANGED <<nSets, nFaults, nFails, nHand>>
+MCFetchEnd(c) == DoFetchEnd(c) /\ Step([a |-> "FetchEnd", c |-> c]) /\ UNCHANGED <<nSets, nFaults, nFails, nHand>>
+Fault(a) == nFaults < MaxFaults /\ nFaults' = nFaults + 1 /\ Step(a) /\ UNCHANGED <<nSets, nFails, nHand>>
 MCClean == clog # <<>> /\ DoClean /\ Fault([a |-> "Clean"])
 MCCleanBegin == clog # <<>> /\ DoCleanBegin /\ Fault([a |-> "CleanBegin"])
-MCCleanEnd == DoCleanEnd /\ Step([a |-> "CleanEnd"]) /\ UNCHANGED <<nSets, nFaults, nFails>>
+MCCleanEnd == DoCleanEnd /\ Step([a |-> "CleanEnd"]) /\ UNCHANGED <<nSets, nFaults, nFails, nHand>>
+MCRoll == clog # <<>> /\ ~paused /\ SegRecs(clog, segs, Len(segs)) # <<>> /\ DoRoll /\ Fault([a |-> "Roll"])
 MCPause == next > 0 /\ DoPause /\ Fault([a |-> "Pause"])
 \* the restart may come with another cursors.stream.partitions setting: the existing
 \* cursors stream keeps the partitions it was created with, so nothing changes
-MCRestart(parts) == next > 0 /\ DoRestart /\ Fault([a |-> "Restart", parts |-> parts])
+MCRestart(parts) == MaxHand = 0 /\ next > 0 /\ DoRestart /\ Fault([a |-> "Restart", parts |-> parts])
+\* two servers: leader changes of the cursors partition and fetches sent to the server
+\* that does not lead it (restarts belong to the one-server configurations)
+MCHandover == /\ nHand < MaxHand /\ next > 0 /\ DoHandover /\ nHand' = nHand + 1
+              /\ Step([a |-> "Handover"]) /\ UNCHANGED <<nSets, nFaults, nFails>>
+MCFetchOther(k) == /\ MaxHand > 0 /\ next > 0 /\ DoFetchOther(k) /\ Step([a |-> "FetchOther", k |-> k])
+                   /\ UNCHANGED <<nSets, nFaults, nFails, nHand>>
 
 MCNext ==
   \/ \E k \in UseKeys : MCSet(k) \/ MCFetch(k) \/ MCSetFail(k)
   \/ \E c \in UseClients, k \in UseKeys : MCFetchBegin(c, k)
   \/ \E c \in UseClients : MCFetchEnd(c)
-  \/ MCClean \/ MCPause \/ (\E parts \in 1..3 : MCRestart(parts)) \/ MCCleanBegin \/ MCCleanEnd
+  \/ MCClean \/ MCPause \/ (\E parts \in 1..3 : MCRestart(parts)) \/ MCCleanBegin \/ MCCleanEnd \/ MCRoll
+  \/ MCHandover \/ (\E k \in UseKeys : MCFetchOther(k))
 
 MCSpec == MCInit /\ [][MCNext]_mcvars
+
+\* Scenario family "a log worth compacting, compacted, then read": the same actions,
+\* scheduled in phases - first only writes (successful and failed sets, cleaner-tick
+\* rolls), then a clean (whole or its first step), then anything.  A uniformly random
+\* walk rarely builds a segment with several versions of a key before it cleans.
+MCNextFam ==
+  CASE nOps < 5 -> (\E k \in UseKeys : MCSet(k) \/ MCSetFail(k)) \/ MCRoll
+    [] nOps = 5 -> MCClean \/ MCCleanBegin
+    [] OTHER -> MCNext
+MCSpecFam == MCInit /\ [][MCNextFam]_mcvars
+
+\* Scenario family "the leadership goes away and comes back" (two servers): some calls
+\* (with a pause among them), a leader change, writes on the new leader, a second
+\* leader change, then anything - the server that led first leads again and must not
+\* serve what it cached in its first term.
+MCNextHand ==
+  LET canHand == ~paused /\ ~cln.on /\ hw = next - 1 /\ next > 0 /\ \A c \in Clients : ~pend[c].on IN
+  CASE nOps < 3 -> (\E k \in UseKeys : MCSet(k) \/ MCFetch(k)) \/ MCPause
+    [] nOps \in {3, 6} -> IF canHand THEN MCHandover ELSE \E k \in UseKeys : MCSet(k)
+    [] nOps \in {4, 5} -> \E k \in UseKeys : MCSet(k)
+    [] OTHER -> MCNext
+MCSpecHand == MCInit /\ [][MCNextHand]_mcvars
 
 \* open finding C11-fetch-during-clean: the culprit step is a cache-miss fetch whose
 \* scan runs into a segment the clean in progress has rewritten; it fails instead of
@@ -49,8 +80,9 @@ StepOK ==
     [] a.a = "Fetch" -> (KnownErr \/ P_Fetch(a.k)) /\ P_Other
     [] a.a = "FetchBegin" -> (KnownErr \/ P_FetchBegin(a.c, a.k)) /\ P_Other
     [] a.a = "FetchEnd" -> P_FetchEnd(a.c) /\ P_Other
+    [] a.a = "FetchOther" -> P_FetchOther(a.k) /\ P_Other
     [] OTHER -> P_Other
 StepsOK == [][StepOK]_mcvars
 
-MCView == <<vars, nSets, nOps, nFaults, nFails>>
+MCView == <<vars, nSets, nOps, nFaults, nFails, nHand>>
 =============================================================================
